@@ -36,6 +36,7 @@ struct Shared {
   struct Iv { long start, end; }; Iv sets[64]; int nsets = 0; Iv resets[64]; int nresets = 0; long tick = 1; bool sigSet = false;
   long monOutstanding = 0, monSetsTotal = 0, monSuccess = 0, monInWait = 0;                 // Monitor
   int blockedIn[MAXT] = {0, 0, 0, 0};                       // 0 none, 1 untimed wait in progress
+  bool ownMutexes = false;                                  // Mutex cases only: no shared object, every thread constructs and uses its own
   bool threadDone[8] = {false, false, false, false, false, false, false, false};
 } G;
 
@@ -69,6 +70,22 @@ struct Worker { ThreadArg a; uint run() { for (int i = 0; i < a.points; ++i) vsc
 
 void runProg(Prog& pr) {
   int me = pr.tid; int myDepth = 0;
+  if (G.ownMutexes) {
+    // every thread constructs a Mutex of its own - the first mutexes of this process, constructed concurrently - and uses it
+    // re-entrantly: construction must not depend on what other threads construct at the same moment
+    vsched::point("own mutex");
+    Mutex* mine = new Mutex;
+    for (int round = 0; round < 2; ++round) {
+      mine->lock();
+      if (!mine->tryLock()) { char d[160]; snprintf(d, sizeof d, "tryLock of thread %d on its own, already locked Mutex failed (the Mutex is not re-entrant for its owner)", me); failC("mutex:trylock-failed-when-free", d); }
+      mine->lock();
+      mine->unlock(); mine->unlock(); mine->unlock();
+      vsched::point("own mutex");
+    }
+    delete mine;
+    vs::childLabel("mutexes_constructed_concurrently");
+    return;
+  }
   for (const Op* op : pr.ops) {
     int what = (int)(((op->a[1] % 6) + 6) % 6); long arg = op->a[2] < 0 ? -op->a[2] : op->a[2]; int points = (int)(op->a[3] % 3);
     vsched::point("op");
@@ -170,6 +187,7 @@ void pbt_generate(Rng& r, int size, Case& c) {
   int nt = 2 + (int)r.below(3);
   c.params["prim"] = (long)r.below(5); c.params["threads"] = nt; c.params["initial"] = (long)r.below(3);
   c.params["strategy"] = (long)r.below(4); c.params["sched"] = (long)r.below(1000000); c.params["nsched"] = 10;
+  if (c.params["prim"] == 0 && r.chance(15)) c.params["ownmutex"] = 1;
   int n = 2 + (int)r.below((uint64_t)std::min(size, 8 * nt) + 1);
   for (int k = 0; k < n; ++k) c.add("op", (long)r.below((uint64_t)nt), (long)r.below(6), (long)r.below(5000), (long)r.below(3));
 }
@@ -190,7 +208,8 @@ void pbt_run(const Case& cs, Ctx& ctx) {
     auto body = [&]() {
       G = Shared(); G.prim = prim; G.nt = nt; G.semInitial = cs.param("initial", 0) % 3; G.sigSet = (cs.param("initial", 0) & 1) != 0; if (G.sigSet) { G.sets[0].start = -2; G.sets[0].end = -1; G.nsets = 1; }
       { LedgerPause lp;  // the objects under test stay alive when the run ends with blocked threads
-        if (prim == P_MUTEX) G.mutex = new Mutex; else if (prim == P_SEM) G.sem = new Semaphore((uint)G.semInitial); else if (prim == P_SIGNAL) G.sig = new Signal(G.sigSet); else if (prim == P_MONITOR) G.mon = new Monitor; }
+        G.ownMutexes = prim == P_MUTEX && cs.param("ownmutex", 0) != 0;
+        if (prim == P_MUTEX) { if (!G.ownMutexes) G.mutex = new Mutex; } else if (prim == P_SEM) G.sem = new Semaphore((uint)G.semInitial); else if (prim == P_SIGNAL) G.sig = new Signal(G.sigSet); else if (prim == P_MONITOR) G.mon = new Monitor; }
       vs::g_deadlockJudge = judge;
       pthread_t th[MAXT];
       for (int t = 1; t < nt; ++t) pthread_create(&th[t], nullptr, progMain, &progs[(size_t)t]);
